@@ -110,6 +110,25 @@ def run(ctx):
     ctx.exhaustive.append("12 protocol states x the 21-kind alphabet with all attribute combinations x 4 configurations")
     ctx.extra["states"] = 12 * len(CONFIGS)
     ctx.extra["transitions"] = len(cases)
+    # a send leaves the state unchanged when it is refused and moves it as the procedure says when it is accepted - whatever
+    # the size of the request and the negotiated maximum PDU size (the library does not segment, nor is it asked to refuse)
+    from dlms_cosem.protocol import xdlms
+    big = {6: lambda: xdlms.SetRequestNormal(D.attr(), b"\x09\x64" + bytes(100)), 7: lambda: xdlms.ActionRequestNormal(D.method(), b"\x09\x64" + bytes(100)),
+           4: lambda: xdlms.GetRequestNormal(D.attr())}
+    for cfg in CONFIGS:
+        for size in (0, 12, 64, 65535):
+            for k, mk in big.items():
+                conn = D.make_conn(cfg, state=2)
+                conn.max_pdu_size = size
+                before = D.state_of(conn)
+                o = guarded(lambda: conn.send(mk()))
+                after = D.state_of(conn)
+                ctx.tried("send_with_small_pdu_size", key=(cfg, size, k))
+                want = lib.run_model([("assoc_step", model_args(cfg, 2, 0, k, False, False, 0))])[0][1]
+                if o.ok and after != want:
+                    ctx.fail("accepted_send_wrong_state", {"config": cfg, "max_pdu_size": size, "request": k}, str(want), str(after))
+                if not o.ok and after != before:
+                    ctx.fail("refused_send_changed_state", {"config": cfg, "max_pdu_size": size, "request": k}, str(before), f"{after} after {o.exc}")
     # random histories on one connection (plain and pre-established): the state follows the model
     for cfg in ("plain", "pre"):
         for run_i in range(ctx.scale(10, 100)):
@@ -141,6 +160,18 @@ def run(ctx):
 
 def replay(ctx, rp):
     c = rp["case"]
+    if "max_pdu_size" in c:
+        from dlms_cosem.protocol import xdlms
+        mk = {6: lambda: xdlms.SetRequestNormal(D.attr(), b"\x09\x64" + bytes(100)), 7: lambda: xdlms.ActionRequestNormal(D.method(), b"\x09\x64" + bytes(100)),
+              4: lambda: xdlms.GetRequestNormal(D.attr())}[c["request"]]
+        conn = D.make_conn(c["config"], state=2)
+        conn.max_pdu_size = c["max_pdu_size"]
+        before = D.state_of(conn)
+        o = guarded(lambda: conn.send(mk()))
+        after = D.state_of(conn)
+        print("send ok:", o.ok, "state before/after:", before, after)
+        want = lib.run_model([("assoc_step", model_args(c["config"], 2, 0, c["request"], False, False, 0))])[0][1]
+        return (o.ok and after != want) or (not o.ok and after != before)
     if "state" not in c:
         return True
     got = apply_event(c["config"], c["state"], c["dir"], c["kind"], c["a"], c["b"], c["proof"])
